@@ -60,7 +60,8 @@ func mkStreamC33(sc *serverConn, unread int, bodyClosedByHandler bool) *stream {
 		st.body.CloseWithError(errClosedBody) // RequestBody.Close()
 	}
 	st.inflow.n = vrt.I32("streamWindow")
-	vrt.Assume(st.inflow.n >= 0)
+	// Inv: the buffered octets were debited from a window that never exceeded 2^31-1
+	vrt.Assume(st.inflow.n >= 0 && int64(st.inflow.n)+int64(unread) <= 1<<31-1)
 	sc.maxStreamID = 1
 	sc.curOpenStreams = 1
 	return st
@@ -74,7 +75,10 @@ func readableC33(st *stream) int {
 	return n
 }
 
-func errCodeC33(err error) (isStream, isConn bool, code ErrCode) {
+// errCodeC33 classifies the reaction to a frame: the error handed back to processFrameFromReader (which
+// turns a StreamError into resetStream and a ConnectionError into goAway) or an RST_STREAM the step
+// function queued for the stream itself.
+func errCodeC33(sc *serverConn, id uint32, err error) (isStream, isConn bool, code ErrCode) {
 	switch e := err.(type) {
 	case StreamError:
 		return true, false, e.Code
@@ -82,6 +86,11 @@ func errCodeC33(err error) (isStream, isConn bool, code ErrCode) {
 		return false, true, e.Code
 	case goAwayFlowError:
 		return false, true, ErrCodeFlowControl
+	}
+	for _, wm := range sc.writeSched.zero.s {
+		if se, ok := wm.write.(StreamError); ok && se.StreamID == id {
+			return true, false, se.Code
+		}
 	}
 	return false, false, 0
 }
@@ -91,7 +100,7 @@ func VerifC33_data() {
 	sc, _ := newConnH2()
 	sc.writingFrame = vrt.Choose("writerBusy", 2) == 1
 	sc.inflow.n = vrt.I32("connWindow")
-	vrt.Assume(sc.inflow.n >= 0)
+	vrt.Assume(sc.inflow.n >= 0 && sc.inflow.n <= 1<<31-1-8) // Inv: room for the octets buffered unread
 
 	// who the frame is for: 0 open stream, 1 half-closed(remote) stream, 2 a stream that is not in the map
 	// any more (closed) - the client may legitimately still have DATA in flight for it
@@ -150,14 +159,21 @@ func VerifC33_data() {
 
 	err := sc.processData(f)
 
-	isStreamErr, isConnErr, code := errCodeC33(err)
+	var inflight frameWriteMsg
+	select {
+	case inflight = <-sc.writeFrameCh: // what the step handed to the idle writer
+		sc.writeSched.zero.s = append([]frameWriteMsg{inflight}, sc.writeSched.zero.s...) // look at it with the queue
+	default:
+	}
+	isStreamErr, isConnErr, code := errCodeC33(sc, frameID, err)
 	uc, us := queuedWindowUpdatesC33(sc, st.id)
-	kept := int64(readableC33(st) - bufBefore) // octets now waiting for the handler
+	// octets the frame added to what the handler can read (negative if the step threw the buffer away)
+	kept := int64(readableC33(st) - bufBefore)
 	connAfter, streamAfter := int64(sc.inflow.n), int64(st.inflow.n)
 
 	// (1) never accept more than advertised; the excess is answered with FLOW_CONTROL_ERROR
 	if (exceedsConn || exceedsStream) && !discardedAfterGoAway {
-		vrt.Assert(kept == 0, "C33/excess-data-not-accepted")
+		vrt.Assert(kept <= 0, "C33/excess-data-not-accepted")
 		vrt.Assert(isStreamErr || isConnErr, "C33/excess-answered-with-error")
 		if !overDeclared { // a frame that also overruns Content-Length may be answered PROTOCOL_ERROR
 			vrt.Assert(code == ErrCodeFlowControl, "C33/excess-answered-with-flow-control-error")
@@ -165,7 +181,7 @@ func VerifC33_data() {
 	}
 	// (2) a client inside its windows: exact accounting
 	if !exceedsConn && !exceedsStream && !isConnErr {
-		vrt.Assert(kept >= 0 && kept <= int64(d), "C33/kept-at-most-the-data")
+		vrt.Assert(kept <= int64(d), "C33/kept-at-most-the-data")
 		// connection level, whatever happens to the stream
 		vrt.Assert(uc == int64(length)-kept, "C33/conn-window-reopened-by-octets-not-kept")
 		vrt.Assert(connAfter == connBefore-int64(length)+uc, "C33/conn-window-bookkeeping")
